@@ -12,6 +12,7 @@ finders: anomalistic period, reference epoch, year offset and k-factor agree wit
 element tables, perihelion uses round(k), aphelion round(k+0.5)-0.5, a symmetric
 three-point table is handed to minmax(); passage_nodes are seven identical bodies."""
 import math
+from .c11 import node_passage_elliptic
 from fractions import Fraction
 
 from .. import symx, terms as T
@@ -263,6 +264,9 @@ def run(repo, rep, tier):
     rep.floor("periodic-term finders", n_f, 28)
     perihelion(repo, rep)
     passage_nodes(repo, rep)
+    # the seven bodies all hand their elements to Coordinates.passage_nodes_elliptic: its two-body relations, for both
+    # values of the node flag, are what makes the returned instant a node passage (rule shared with C11)
+    node_passage_elliptic(repo, rep)
     # every finder derives its period count k from Epoch.year(): a fractional year that passes the next integer inside a year, or
     # jumps at New Year, makes k (and with it the returned event) step backwards as the query advances
     from .c16 import year_fraction
